@@ -49,6 +49,11 @@ def result_int(post):
     return iv, ok
 
 
+def size_is(post, term):
+    iv, ok = result_int(post)
+    return t.and_(ok, t.eq(iv, term))
+
+
 def stream_error(post):
     return t.eq(post.exc.cls, I(post.eng.src.exc_code['StreamError']))
 
@@ -66,9 +71,32 @@ def generic_raise(pre, post):
 LOOPS = {}      # qual -> loop specs, shared with the generic contracts of contracts/classes.py
 
 
-def fcontract(cls, meth, cases, loops=None, lemmas=(), requires=None, sub_seq=True, tags=T, extra_fields=None, models=('bytesio',)):
+def _with_length_clause(ensures):
+    def f(pre, post):
+        out = list(ensures(pre, post))
+        if 'stream' in pre.args:
+            o, o2 = pre.obj('stream'), post.obj('stream')
+            if o.model != 'adv':
+                # sequential builders only append at the current position: the stream grows to the final position if anything
+                # was written (an empty write never extends an io.BytesIO)
+                out.append(('stream-length-is-max-of-old-length-and-final-position',
+                            t.eq(o2.len, t.ite(t.gt(o2.pos, o.pos), t.imax(o.len, o2.pos), o.len)), ('C01', 'C02', 'C05', 'C03')))
+                i = t.var('i!', t.INT)
+                out.append(('written-region-holds-byte-values',
+                            forall_range(i, o.pos, o2.pos, t.and_(t.le(t.ZERO, t.select(o2.buf, i)), t.lt(t.select(o2.buf, i), I(256))), [[t.select(o2.buf, i)]]),
+                            ('C01', 'C02', 'C03')))
+        return out
+    return f
+
+
+def fcontract(cls, meth, cases, loops=None, lemmas=(), requires=None, sub_seq=True, tags=T, extra_fields=None, models=('bytesio',), instance_cls=None,
+              sequential_build=True):
     qual = '%s:%s.%s' % (CORE, cls, meth)
-    c = FnContract(qual, cases, requires=requires, loops=loops or {}, setup=method_setup(cls, extra_fields), tags=tags, lemmas=lemmas,
+    if meth == '_build' and sequential_build:
+        for case in cases:
+            if case.kind == 'return':
+                case.ensures = _with_length_clause(case.ensures)
+    c = FnContract(qual, cases, requires=requires, loops=loops or {}, setup=method_setup(instance_cls or cls, extra_fields), tags=tags, lemmas=lemmas,
                    stream_models=models)
     c.iface = dict(sub_seq=sub_seq, params_total=True)
     c.modifies_heap = False
@@ -244,7 +272,7 @@ fcontract('Bytes', '_parse', [
 
 fcontract('Bytes', '_sizeof', [
     Case('ok', 'return', lambda pre: t.TRUE,
-         ensures=lambda pre, post: [('size-is-length', t.eq(result_int(post)[0], _param_int(pre, 'length')), ('C05',))], rkind=rk_dyn),
+         ensures=lambda pre, post: [('size-is-length', size_is(post, _param_int(pre, 'length')), ('C05',))], rkind=rk_dyn),
 ], tags=('C05',))
 
 
@@ -304,7 +332,7 @@ for _m in ('_parse', '_build', '_sizeof'):
     fcontract('Renamed', _m, [
         Case('returns', 'return', lambda pre: t.TRUE, rkind=rk_dyn, modifies=['stream'] if _m != '_sizeof' else []),
         Case('raises', 'raise', lambda pre: t.TRUE, ensures=_renamed_raise, modifies=['stream'] if _m != '_sizeof' else []),
-    ], tags=('C18',), sub_seq=False, models=('bytesio',))
+    ], tags=('C18',), sub_seq=False, models=('bytesio',), sequential_build=False)
     contract_ = None
 
 
@@ -365,11 +393,11 @@ fcontract('BytesInteger', '_parse', [
 
 fcontract('BytesInteger', '_sizeof', [
     Case('ok', 'return', lambda pre: t.TRUE,
-         ensures=lambda pre, post: [('size-is-length', t.eq(result_int(post)[0], _param_int(pre, 'length')), ('C05',))], rkind=rk_dyn),
+         ensures=lambda pre, post: [('size-is-length', size_is(post, _param_int(pre, 'length')), ('C05',))], rkind=rk_dyn),
 ], tags=('C05',))
 fcontract('BitsInteger', '_sizeof', [
     Case('ok', 'return', lambda pre: t.TRUE,
-         ensures=lambda pre, post: [('size-is-length', t.eq(result_int(post)[0], _param_int(pre, 'length')), ('C05',))], rkind=rk_dyn),
+         ensures=lambda pre, post: [('size-is-length', size_is(post, _param_int(pre, 'length')), ('C05',))], rkind=rk_dyn),
 ], tags=('C05',))
 
 
@@ -618,6 +646,6 @@ _c = fcontract('FormatField', '_build', [
 ])
 _c.variants = FMT_VARIANTS
 _c = fcontract('FormatField', '_sizeof', [
-    Case('ok', 'return', lambda pre: t.TRUE, ensures=lambda pre, post: [('size-is-format-width', t.eq(result_int(post)[0], _ff_width(pre)), ('C05',))], rkind=rk_dyn)],
+    Case('ok', 'return', lambda pre: t.TRUE, ensures=lambda pre, post: [('size-is-format-width', size_is(post, _ff_width(pre)), ('C05',))], rkind=rk_dyn)],
     tags=('C05',))
 _c.variants = FMT_VARIANTS
